@@ -33,6 +33,7 @@ type PanicInfo struct {
 }
 
 const icePkg = "github.com/blugelabs/ice/v2."
+const refPkg = "icesim/refice."
 
 // HarnessPanic is re-raised for panics that have no ice frame between the
 // guard and the panic site: those are harness bugs, never violations.
@@ -67,6 +68,10 @@ func Guard(f func()) (pi *PanicInfo) {
 			}
 			if site == "" && strings.HasPrefix(fr.Function, icePkg) {
 				site = strings.TrimPrefix(fr.Function, icePkg)
+			}
+			if site == "" && strings.HasPrefix(fr.Function, refPkg) {
+				// the frozen reference copy choking on what the code under test wrote
+				site = "reference:" + strings.TrimPrefix(fr.Function, refPkg)
 			}
 			if !more {
 				break
